@@ -433,7 +433,7 @@ def run(ctx):
     inputs += [("aasm", l, b) for l, b in structured_aasm(seeds["aasm"])]
     inputs += [("avbc", l, b) for l, b in structured_avbc(seeds["avbc"])]
     inputs += [("manifest", l, b) for l, b in structured_manifest(quick)]
-    nm = 150 if quick else 2000
+    nm = 150 if quick else 1000
     srcs = [p.encode() for p in progs]
     tomls = [b for _, b in structured_manifest(True)[:4]]
     for kind, base in (("source", srcs), ("aasm", seeds["aasm"]), ("manifest", tomls)):
@@ -502,7 +502,7 @@ def run(ctx):
         ctx.log("cli children")
         cstats = collections.Counter()
         per_kind = collections.Counter()
-        cap = 40 if quick else 300
+        cap = 40 if quick else 150
         for n, ((kind, label, data), o) in enumerate(zip(inputs, outcomes)):
             structured = not label.startswith(("mut-", "raw"))
             if not structured:
